@@ -16,7 +16,7 @@ func VerifC01_t_reincarnationDeep() {
 func VerifC01_q_releaseVsRebind() { vpReleaseVsRebind("C01") }
 
 func vpReleaseVsRebind(prop string) {
-	w := vpNewWorld(0, false)
+	w := vpNewWorld(0, prop == "C10")
 	if err := w.configure(); err != nil {
 		return
 	}
@@ -80,8 +80,10 @@ func vpReleaseVsRebind(prop string) {
 func VerifC01_q_resyncVsReincarnation() { vpResyncVsReincarnation("C01") }
 
 // BOUND: topologies {0,1}; two pods whose names (and therefore keys) are in a prefix relation: statefulset pods ss-1 and ss-10 (replicas 11), or bare pods bare-1 and bare-10; symbolic policy; both bound; the shorter-named one ends (finished and/or deleted), its event is handled and / or a resync pass runs; then two more pods are scheduled. The longer-named live pod keeps its IP and no IP is held by two live pods
-func VerifC01_q_prefixSiblings() {
-	w := vpNewWorld(nondetChoice(2), false)
+func VerifC01_q_prefixSiblings() { vpPrefixSiblings("C01") }
+
+func vpPrefixSiblings(prop string) {
+	w := vpNewWorld(nondetChoice(2), prop == "C10")
 	if err := w.configure(); err != nil {
 		return
 	}
@@ -99,7 +101,7 @@ func VerifC01_q_prefixSiblings() {
 		w.setRunning(name)
 	}
 	w.syncListers()
-	w.checkAll("C01", "binding two pods with prefix-related names")
+	w.checkAll(prop, "binding two pods with prefix-related names")
 	if nondetBool() {
 		w.finishPod(short)
 		w.syncListers()
@@ -119,7 +121,7 @@ func VerifC01_q_prefixSiblings() {
 		w.resync()
 	}
 	verifReach("short-name-pod-ended")
-	w.checkAll("C01", "the end of the pod whose key is a prefix of a live pod's key")
+	w.checkAll(prop, "the end of the pod whose key is a prefix of a live pod's key")
 	w.setDeployment(2)
 	for i := 0; i < 2; i++ {
 		other := vpPodNameOf(vpKindDp, i)
@@ -132,5 +134,60 @@ func VerifC01_q_prefixSiblings() {
 		}
 	}
 	w.syncListers()
-	w.checkAll("C01", "scheduling two more pods afterwards")
+	w.checkAll(prop, "scheduling two more pods afterwards")
+}
+
+// ---- the scenarios of C04 / C10 checked under C01 as well (one change to the ownership logic usually breaks several of
+// C01, C04 and C10; each of the three checks has to see it)
+// BOUND: cloud provider configured; topology 0; a statefulset pod (symbolic policy) bound on n1, finished (event handled) and deleted (its delete event still pending = late event of the old incarnation); the same-named pod is re-created (new UID), filtered, and its Bind on any approved node among n1,n5 runs while, as a second logical thread starting inside any one window of that Bind (API-server, provider or IPAM call; symbolic window 0..14), the late event is handled; the second thread parks wherever it needs the pod key lock Bind holds and continues when Bind releases it
+// ASSUME: C01: same scenario as VerifC10_q_bindVsLateEvent, checked under C01
+func VerifC01_q_bindVsLateEvent() { vpBindVsLateEvent("C01") }
+
+// BOUND: topologies {1,3} (two pools; in topology 1 they share one pod subnet); two statefulset pods bound on nodes of different pools (n1, n2), symbolic policy; then galaxy-ipam restarts or reloads the unchanged configuration through ensureIPAMConf (tables rebuilt from the store); then two more pods are scheduled on any approved node. Every live bound pod keeps its IP and no IP is held by two live pods
+func VerifC01_q_reloadKeepsOwnership() { vpReloadKeepsOwnership("C01") }
+
+func vpReloadKeepsOwnership(prop string) {
+	topo := []int{1, 3}[nondetChoice(2)]
+	w := vpNewWorld(topo, false)
+	text, _ := vpConfig(topo, 0)
+	if err := w.reload(text); err != nil {
+		return
+	}
+	policy := nondetPick("", "immutable", "never")
+	w.setStatefulSet(4)
+	for i, node := range []string{"n1", "n2"} {
+		name := vpPodNameOf(vpKindSts, i)
+		w.createPod(vpMakePod(name, "U"+name, vpKindSts, policy, "", ""))
+		w.syncListers()
+		if w.bind(name, node) != nil {
+			return
+		}
+		w.setRunning(name)
+	}
+	w.syncListers()
+	w.checkAll(prop, "binding a pod on each pool")
+	if nondetBool() {
+		if w.restart() != nil {
+			return
+		}
+	} else {
+		w.plugin.lastIPConf = "" // the configmap is read again and looks new
+		if err := w.reload(text); err != nil {
+			return
+		}
+	}
+	verifReach("tables-rebuilt")
+	w.checkAll(prop, "rebuilding the tables from the store")
+	for i := 2; i < 4; i++ {
+		name := vpPodNameOf(vpKindSts, i)
+		w.createPod(vpMakePod(name, "U"+name, vpKindSts, policy, "", ""))
+		w.syncListers()
+		if nodes, err := w.filter(name, "n1", "n2", "n3"); err == nil && len(nodes) > 0 {
+			if w.bind(name, nodes[nondetChoice(len(nodes))]) == nil {
+				w.setRunning(name)
+			}
+		}
+		w.syncListers()
+		w.checkAll(prop, "scheduling another pod after the rebuild")
+	}
 }
